@@ -8,6 +8,9 @@ import (
 	"math"
 	"sync"
 	"testing"
+	"time"
+
+	"github.com/Yiling-J/theine-go/internal/hasher"
 
 	"github.com/Yiling-J/theine-go/internal/verifkit"
 	"pgregory.net/rapid"
@@ -391,5 +394,149 @@ func TestVerifC09(t *testing.T) {
 			"statistical oracle with calibrated thresholds: hot-set hit ratio over the last 30% of the trace >= 0.90 and >= 90% of the hot keys resident at the end; Zipf hit ratio >= LRU - 0.08 (worst observed on the unchanged tree: 0.985 / 1.0 / -0.028)",
 			"reads reach the policy through the lossy striped buffer and the real maintenance goroutine (Wait every 512 operations), so results vary slightly between runs",
 		},
+	})
+}
+
+// C09 (policy tier) — the same question asked of the bare TinyLfu policy, deterministically
+// (no goroutines, no lossy buffer): a cache with a previous life (a long recency-friendly,
+// Zipf or scan phase that lets the hill climber move the window and decay its step) is then
+// given the hot-set-plus-one-off-inserts workload.
+
+type c09pCase struct {
+	MaxSize int    `json:"maxsize"`
+	Phase1  string `json:"phase1"` // none | recency | zipf | scan
+	P1Ops   int    `json:"p1_ops"`
+	LagPct  int    `json:"lag_pct"` // recency: a key is re-read within this many percent of MaxSize insertions
+	HotPct  int    `json:"hot_pct"` // 5..50
+	Flood   int    `json:"flood"`   // one-off inserts per hot read
+	Rounds  int    `json:"rounds"`  // passes over the hot set
+	Seed    uint64 `json:"seed"`
+}
+
+func genC09p(t *rapid.T) c09pCase {
+	c := c09pCase{
+		MaxSize: rapid.SampledFrom([]int{300, 500, 1000, 2000}).Draw(t, "maxsize"),
+		Phase1:  rapid.SampledFrom([]string{"none", "recency", "recency", "zipf", "scan"}).Draw(t, "phase1"),
+		LagPct:  rapid.SampledFrom([]int{10, 40, 80}).Draw(t, "lagPct"),
+		HotPct:  rapid.SampledFrom([]int{5, 20, 35, 50}).Draw(t, "hotPct"),
+		Flood:   rapid.SampledFrom([]int{1, 3, 6, 10}).Draw(t, "flood"),
+		Rounds:  400,
+		Seed:    rapid.Uint64().Draw(t, "seed"),
+	}
+	if c.Phase1 != "none" {
+		// long enough for hundreds of climber periods (one period = 10 x sketch table additions)
+		c.P1Ops = rapid.SampledFrom([]int{20000, 300000, 2000000, 4000000}).Draw(t, "p1ops")
+	}
+	return c
+}
+
+type c09Sim struct {
+	p       *TinyLfu[int, int]
+	entries map[int]*Entry[int, int]
+}
+
+func (s *c09Sim) get(k int) bool {
+	e, ok := s.entries[k]
+	if !ok {
+		return false
+	}
+	s.p.Access(ReadBufItem[int, int]{entry: e, hash: s.p.hasher.Hash(k)})
+	return true
+}
+func (s *c09Sim) set(k int) {
+	e := &Entry[int, int]{key: k, value: k, policyWeight: 1}
+	s.entries[k] = e
+	s.p.sketch.Add(s.p.hasher.Hash(k))
+	s.p.Set(e)
+}
+
+func execC09p(c c09pCase, x *verifkit.Ctx) *verifkit.Failure {
+	return vkWatch(120*time.Second, "admission/policy-hang", func() *verifkit.Failure {
+		s := &c09Sim{p: NewTinyLfu[int, int](uint(c.MaxSize), hasher.NewHasher[int](nil)), entries: map[int]*Entry[int, int]{}}
+		s.p.removeCallback = func(e *Entry[int, int]) { delete(s.entries, e.key) }
+		rng := &c09Rng{s: c.Seed | 1}
+		switch c.Phase1 {
+		case "recency":
+			lag := c.MaxSize * c.LagPct / 100
+			if lag < 1 {
+				lag = 1
+			}
+			for n := 0; n < c.P1Ops; n++ {
+				s.set(n)
+				if k := n - 1 - rng.intn(lag); k >= 0 && !s.get(k) {
+					s.set(k)
+				}
+			}
+		case "zipf":
+			z := newC09Zipf(10*c.MaxSize, 1.0)
+			for n := 0; n < c.P1Ops; n++ {
+				k := 1 + z.sample(rng.float())
+				if !s.get(k) {
+					s.set(k)
+				}
+			}
+		case "scan":
+			for n := 0; n < c.P1Ops; n++ {
+				k := n % (3 * c.MaxSize)
+				if !s.get(k) {
+					s.set(k)
+				}
+			}
+		}
+		windowBefore := s.p.window.capacity
+		hot := c.MaxSize * c.HotPct / 100
+		if hot > c.MaxSize/2 {
+			hot = c.MaxSize / 2
+		}
+		if hot < 1 {
+			hot = 1
+		}
+		const hotBase = 1 << 29
+		next := 1 << 30
+		hits, reads := 0, 0
+		for round := 0; round < c.Rounds; round++ {
+			if round == c.Rounds*3/4 {
+				hits, reads = 0, 0
+			}
+			for i := 0; i < hot; i++ {
+				reads++
+				if s.get(hotBase + i) {
+					hits++
+				} else {
+					s.set(hotBase + i)
+				}
+				for j := 0; j < c.Flood; j++ {
+					s.set(next)
+					next++
+				}
+			}
+		}
+		resident := 0
+		for i := 0; i < hot; i++ {
+			if _, ok := s.entries[hotBase+i]; ok {
+				resident++
+			}
+		}
+		ratio := float64(hits) / float64(reads)
+		res := float64(resident) / float64(hot)
+		verifkit.Extra("policy_min_hot_ratio_x1000", c09Min("phr", int64(ratio*1000)))
+		verifkit.Extra("policy_min_hot_resident_x1000", c09Min("phres", int64(res*1000)))
+		x.Class("phase1-" + c.Phase1)
+		x.ClassIf(windowBefore != NewTinyLfu[int, int](uint(c.MaxSize), s.p.hasher).window.capacity, "window-moved-by-previous-life")
+		if ratio < c09ThetaHotRatio || res < c09ThetaHotResident {
+			return verifkit.Failf("admission/policy/hot-set-not-retained", "bare policy, MaxSize %d, previous life %s (%d ops, window capacity %d afterwards): hot set of %d keys with %d one-off inserts per read: hit ratio over the last quarter of %d passes %.3f, %.1f%% of the hot keys resident (window capacity now %d, climber step %.4f)", c.MaxSize, c.Phase1, c.P1Ops, windowBefore, hot, c.Flood, c.Rounds, ratio, 100*res, s.p.window.capacity, s.p.step)
+		}
+		if c.Phase1 != "none" && c.Flood >= 3 {
+			x.NonTrivial()
+		}
+		return nil
+	})
+}
+
+func TestVerifC09Policy(t *testing.T) {
+	verifkit.Run(t, verifkit.Spec[c09pCase]{
+		ID: "C09", Gen: genC09p, Exec: execC09p,
+		Rule:        "C09 (policy tier): rapid draws MaxSize {300,500,1000,2000}, a previous life of the cache (none / recency-friendly with a re-read lag of 10..80% of MaxSize / Zipf / cyclic scan, 20 000 .. 4 000 000 operations, i.e. up to hundreds of hill-climber periods) and then the hot-set workload (hot set 5..50% of MaxSize, 1..10 one-off inserts per hot read, 400 passes); driven directly and deterministically against TinyLfu; hit ratio over the last quarter >= 0.90 and >= 90% of the hot keys resident; non-trivial = a previous life and at least 3 one-off inserts per read",
+		Assumptions: []string{"the bare policy is driven as the store drives it (sketch.Add + Set for a new key, Access for a hit), with every hit delivered (no lossy buffer)"},
 	})
 }
